@@ -27,6 +27,81 @@ pub struct EvCase {
     pub redacted_version: Option<u8>,
     pub unsigned_bits: u8,
     pub salt: u8,
+    /// 0 = plain serde_json spelling; otherwise escape density (bits 0-2), inter-token whitespace (bit 3)
+    #[serde(default)]
+    pub spelling: u8,
+}
+
+/// A JSON string literal for `s` where, depending on `mode`, characters are written as escapes
+/// (`\uXXXX` incl. surrogate pairs, `\/`, short escapes): same JSON value, different text.
+fn spell_str(s: &str, mode: u8, ctr: &mut u32) -> String {
+    let density = (mode & 7) as u32;
+    let mut out = String::from("\"");
+    for ch in s.chars() {
+        *ctr = ctr.wrapping_add(1);
+        let h = (ctr.wrapping_mul(2654435761).rotate_left(9)) ^ (mode as u32).wrapping_mul(40503);
+        let must = (ch as u32) < 0x20 || ch == '"' || ch == '\\';
+        if !(must || (density > 0 && h % 8 < density)) {
+            out.push(ch);
+            continue;
+        }
+        let short = match ch {
+            '"' => Some("\\\""),
+            '\\' => Some("\\\\"),
+            '/' => Some("\\/"),
+            '\n' => Some("\\n"),
+            '\t' => Some("\\t"),
+            '\r' => Some("\\r"),
+            '\u{8}' => Some("\\b"),
+            '\u{c}' => Some("\\f"),
+            _ => None,
+        };
+        if let (Some(sh), true) = (short, (h >> 8) % 2 == 0 || density == 0) {
+            out.push_str(sh);
+            continue;
+        }
+        let mut buf = [0u16; 2];
+        for unit in ch.encode_utf16(&mut buf) {
+            if (h >> 9) % 2 == 0 {
+                out.push_str(&format!("\\u{unit:04x}"));
+            } else {
+                out.push_str(&format!("\\u{unit:04X}"));
+            }
+        }
+    }
+    out.push('"');
+    out
+}
+
+/// Like [`permuted_text`] but with escaped string spellings and optional inter-token whitespace.
+fn spelled_text(v: &Value, salt: u8, mode: u8, ctr: &mut u32) -> String {
+    if mode == 0 {
+        return permuted_text(v, salt);
+    }
+    let ws = |n: u32| if mode & 8 == 0 { "" } else { [" ", "\n", "\t ", "", "\r\n"][(n % 5) as usize] };
+    match v {
+        Value::Object(m) => {
+            let mut keys: Vec<&String> = m.keys().collect();
+            if salt % 3 == 1 {
+                keys.reverse();
+            } else if salt % 3 == 2 && !keys.is_empty() {
+                let r = (salt as usize / 3) % keys.len();
+                keys.rotate_left(r);
+            }
+            let parts: Vec<String> = keys
+                .iter()
+                .map(|k| {
+                    let ks = spell_str(k, mode, ctr);
+                    let n = *ctr;
+                    format!("{}{ks}{}:{}{}", ws(n), ws(n / 5), ws(n / 25), spelled_text(&m[*k], salt.wrapping_add(1), mode, ctr))
+                })
+                .collect();
+            format!("{{{}{}}}", parts.join(","), ws(*ctr / 7))
+        }
+        Value::Array(a) => format!("[{}{}]", a.iter().map(|x| spelled_text(x, salt, mode, ctr)).collect::<Vec<_>>().join(","), ws(*ctr / 3)),
+        Value::String(st) => spell_str(st, mode, ctr),
+        other => serde_json::to_string(other).unwrap(),
+    }
 }
 
 /// JSON text with object keys written in a salt-dependent order.
@@ -150,7 +225,7 @@ fn omitted_default(ty: &str, path: &str, v: &Value) -> bool {
 }
 
 /// Fixpoint check of a content enum; returns s1.
-fn content_fixpoint<C: EventContentFromType + Serialize>(ty: &str, content: &Value, salt: u8, cx: &mut CaseCtx) -> Result<String, String> {
+fn content_fixpoint<C: EventContentFromType + Serialize>(ty: &str, content: &Value, salt: u8, spelling: u8, cx: &mut CaseCtx) -> Result<String, String> {
     if !schemas().iter().any(|s| s.ty == ty) {
         // content of unknown types deserialises to the custom variant, which keeps only the type
         // and is documented as not serialisable (custom events are sent as Raw): totality only
@@ -197,6 +272,14 @@ fn content_fixpoint<C: EventContentFromType + Serialize>(ty: &str, content: &Val
     let c3 = C::from_parts(ty, &raw(content, salt | 1)?).map_err(|e| format!("key-permuted content fails: {e}"))?;
     if serde_json::to_string(&c3).ok().as_deref() != Some(&s1) {
         return Err(format!("serialised content of type {ty} depends on the input's key order"));
+    }
+    // ... nor does the way strings are spelled in the JSON text (escapes, whitespace)
+    if spelling != 0 {
+        let text = spelled_text(content, salt, spelling, &mut 0);
+        let c5 = C::from_parts(ty, &RawValue::from_string(text.clone()).map_err(|e| e.to_string())?).map_err(|e| format!("content of type {ty} fails to deserialise when strings are written with JSON escapes: {e}; text {text}"))?;
+        if serde_json::to_string(&c5).ok().as_deref() != Some(&s1) {
+            return Err(format!("serialised content of type {ty} depends on how the input's strings are escaped: {text}"));
+        }
     }
     let stripped = strip_unknown(content);
     if stripped != *content {
@@ -280,7 +363,9 @@ fn oracle_with(table: &[Schema], c: &EvCase, cx: &mut CaseCtx) -> Result<(), Str
         ev.insert("org.example.unknown_top".into(), json!([1, {"a": null}]));
     }
     let evv = Value::Object(ev);
-    let text = permuted_text(&evv, c.salt);
+    let text = spelled_text(&evv, c.salt, c.spelling, &mut 0);
+    cx.class_if(c.spelling != 0, "escaped_or_spaced_spelling");
+    cx.class_if(c.spelling != 0 && !text.contains(&serde_json::to_string(&ty).unwrap()), "type_string_escaped");
     cx.class(match kind {
         Kind::State => "state",
         Kind::MessageLike => "message_like",
@@ -380,9 +465,9 @@ fn oracle_with(table: &[Schema], c: &EvCase, cx: &mut CaseCtx) -> Result<(), Str
             }
             if redacted.is_none() {
                 if kind == Kind::State {
-                    content_fixpoint::<AnyStateEventContent>(&ty, &content, c.salt, cx)?;
+                    content_fixpoint::<AnyStateEventContent>(&ty, &content, c.salt, c.spelling, cx)?;
                 } else {
-                    content_fixpoint::<AnyMessageLikeEventContent>(&ty, &content, c.salt, cx)?;
+                    content_fixpoint::<AnyMessageLikeEventContent>(&ty, &content, c.salt, c.spelling, cx)?;
                 }
             }
         }
@@ -397,17 +482,17 @@ fn oracle_with(table: &[Schema], c: &EvCase, cx: &mut CaseCtx) -> Result<(), Str
                 let e: AnySyncEphemeralRoomEvent = serde_json::from_str(&text).map_err(|e| ctx_err(e, "AnySyncEphemeralRoomEvent"))?;
                 expect_type(e.event_type().to_string())?;
             }
-            content_fixpoint::<AnyEphemeralRoomEventContent>(&ty, &content, c.salt, cx)?;
+            content_fixpoint::<AnyEphemeralRoomEventContent>(&ty, &content, c.salt, c.spelling, cx)?;
         }
         Kind::GlobalAccountData => {
             let e: AnyGlobalAccountDataEvent = serde_json::from_str(&text).map_err(|e| ctx_err(e, "AnyGlobalAccountDataEvent"))?;
             expect_type(e.event_type().to_string())?;
-            content_fixpoint::<AnyGlobalAccountDataEventContent>(&ty, &content, c.salt, cx)?;
+            content_fixpoint::<AnyGlobalAccountDataEventContent>(&ty, &content, c.salt, c.spelling, cx)?;
         }
         Kind::RoomAccountData => {
             let e: AnyRoomAccountDataEvent = serde_json::from_str(&text).map_err(|e| ctx_err(e, "AnyRoomAccountDataEvent"))?;
             expect_type(e.event_type().to_string())?;
-            content_fixpoint::<AnyRoomAccountDataEventContent>(&ty, &content, c.salt, cx)?;
+            content_fixpoint::<AnyRoomAccountDataEventContent>(&ty, &content, c.salt, c.spelling, cx)?;
         }
         Kind::ToDevice => {
             let e: AnyToDeviceEvent = serde_json::from_str(&text).map_err(|e| ctx_err(e, "AnyToDeviceEvent"))?;
@@ -415,7 +500,7 @@ fn oracle_with(table: &[Schema], c: &EvCase, cx: &mut CaseCtx) -> Result<(), Str
             if e.sender() != sender {
                 return Err("to-device sender() differs".into());
             }
-            content_fixpoint::<AnyToDeviceEventContent>(&ty, &content, c.salt, cx)?;
+            content_fixpoint::<AnyToDeviceEventContent>(&ty, &content, c.salt, c.spelling, cx)?;
         }
     }
     let optional_present = c.choices.iter().any(|b| b % 2 == 1);
@@ -476,12 +561,12 @@ fn main() {
         "events",
         n,
         move || {
-            (0..nt, prop::option::weighted(0.06, prop_oneof![Just("org.example.custom".to_owned()), Just("m.room.unknown_future".to_owned()), "[a-z]{1,6}\\.[a-z.]{1,8}"]), prop::collection::vec(any::<u8>(), 0..40), 0u8..3, prop::option::weighted(0.25, 1u8..=11), any::<u8>(), any::<u8>())
-                .prop_map(|(schema, unknown_type, choices, format, redacted_version, unsigned_bits, salt)| EvCase { schema, unknown_type, choices, format, redacted_version, unsigned_bits, salt })
+            (0..nt, prop::option::weighted(0.06, prop_oneof![Just("org.example.custom".to_owned()), Just("m.room.unknown_future".to_owned()), "[a-z]{1,6}\\.[a-z.]{1,8}", "[a-z./\"\\\\ \u{e9}\u{1F600}\n]{1,8}"]), prop::collection::vec(any::<u8>(), 0..40), 0u8..3, prop::option::weighted(0.25, 1u8..=11), any::<u8>(), any::<u8>(), prop_oneof![Just(0u8), 1u8..16])
+                .prop_map(|(schema, unknown_type, choices, format, redacted_version, unsigned_bits, salt, spelling)| EvCase { schema, unknown_type, choices, format, redacted_version, unsigned_bits, salt, spelling })
         },
         move |c, cx| oracle_with(&t2, c, cx),
     );
-    for cls in ["state", "message_like", "ephemeral", "global_account_data", "room_account_data", "to_device", "unknown_type", "redacted_form", "relation", "optional_field_present", "unknown_fields_present"] {
+    for cls in ["state", "message_like", "ephemeral", "global_account_data", "room_account_data", "to_device", "unknown_type", "redacted_form", "relation", "optional_field_present", "unknown_fields_present", "escaped_or_spaced_spelling", "type_string_escaped"] {
         ck.floor("events", cls, 1000);
     }
     let n = ck.n(60_000, 2_000_000);
